@@ -32,5 +32,7 @@ def step (s : St) (ws : List String) : St × String :=
       | none => (s, "bad-op")
     | none => (s, "bad-op")
   | ["nr"] => let g := newRecording s.ga; ({ s with ga := g }, observe g none)
+  | ["pause"] => (s, observe s.ga none)   -- registration is independent of pausing
+  | ["cont"] => (s, observe s.ga none)
   | _ => (s, "bad-op")
 end GallocDrv
